@@ -38,6 +38,9 @@ type Obs struct {
 	Inconclusive []string         `json:"inconclusive,omitempty"` // reasons; never folded into held/violated
 	Counters     map[string]int64 `json:"counters,omitempty"`     // what the monitors saw (events by type, ...)
 	Sample       any              `json:"sample,omitempty"`       // the case written out for the evidence file
+	// Poisoned asks the framework to retire this worker process after the case (e.g. a goroutine of
+	// the code under test is still spinning and would distort later cases).
+	Poisoned bool `json:"poisoned,omitempty"`
 }
 
 func (o *Obs) Count(name string, n int64) {
@@ -85,8 +88,8 @@ type Check struct {
 	// ProcPerCase runs every case in a fresh worker process (needed when the verdict comes from
 	// per-process artefacts such as race-detector logs).
 	ProcPerCase bool
-	MaxWorkers  int   // 0 = all cores
-	MemLimitMB  int   // address-space limit of each worker (0 = 6144; ignored for -race workers)
+	MaxWorkers  int // 0 = all cores
+	MemLimitMB  int // address-space limit of each worker (0 = 6144; ignored for -race workers)
 	SelfTest    func() error
 	Plan        func(seed int64, tier string) []Case
 	Run         func(c Case) Obs
